@@ -49,10 +49,10 @@ CLAIMED = {
              'Totality over Z^(n+e) = exhaustiveness query of the path summary; per path: no exception, corrected vector in '
              'range, surplus entries inactive, matrix valid by the specification; across paths: equal corrected vectors give '
              'equal matrices, decode of the corrected vector is a fixed point (native), the corrected vectors are exactly '
-             'get_all_design_vectors, onto-ness as a z3 query over all non-negative integer matrices, >= 2 used values per '
+             'get_all_design_vectors (including the -1 marking of inactive positions), onto-ness as a z3 query over all non-negative integer matrices, >= 2 used values per '
              'declared variable; get_conn_idx returns the edge list of that matrix. AUXILIARY (concrete): interference between problems '
              '(settings B after A in one cache, manager A while B is alive, encoder object of A serving B).',
-        note='Two known findings (D3 lazy encoders, D4 partitioning pattern with one valid matrix). Trusted: z3 (LIA), spec/conn.py (decided against the real enumerator under C09), symx (native replay per path). '
+        note='Three known findings (D3 lazy encoders, D4 partitioning pattern with one valid matrix, and D1 - the C07 finding - where it makes a listed vector carry an inactive marking that decoding does not report). Trusted: z3 (LIA), spec/conn.py (decided against the real enumerator under C09), symx (native replay per path). '
              'Bounds: <= 6 declared variables, <= 20000 paths per instance, settings <= 3x3 (plus one 2x4 and one 4x4 settings for the pattern encoders); the quick tier defers instances '
              'with more than ~2500 estimated paths to the thorough tier (listed in the evidence). Constraint-violation '
              'imputers: "valid matrix or the documented all(-1) marker", onto-ness not demanded.',
